@@ -339,6 +339,52 @@ def js_entry_points(res, node, case, q_csv, inp, dlm, pol, cli_dlm, cd, n, has_h
             cmp('js-cli-file' if to_file else 'js-cli-stdout', data, None)
 
 
+def slow_reader_leg(ns, res, spec, d, rng):
+    """The command lines (Python and node) writing a result of several mebibytes to a PIPE whose reader starts late and reads slowly: the same table as
+    query_table, complete to the last byte, exit status 0, empty stderr (nothing may be cut off by the way the process ends)."""
+    import time
+    nrec = rng.choice([60000, 70001])
+    lines = ['r%d,%s,%d,z' % (i, 'x' * (i % 60), i * 7) for i in range(nrec)]
+    inp = os.path.join(d, 'slow_in.csv')
+    with open(inp, 'w') as f:
+        f.write('\n'.join(lines) + '\n')
+    query = 'select a1, a2, a3, a4, NR'
+    exp = ''.join('%s,%d\n' % (ln, i + 1) for i, ln in enumerate(lines)).encode()
+    out, warnings = [], []
+    ns.rbql.query_table(query, [ln.split(',') for ln in lines[:500]], out, warnings)
+    if [','.join(str(c) for c in r) for r in out] != [x.decode() for x in exp.split(b'\n')[:500]]:
+        raise env.InfraError('slow reader leg: the expectation disagrees with query_table')
+    cmds = {'py-cli': [sys.executable, '-W', 'ignore', '-m', 'rbql', '--query', query, '--input', inp, '--delim', ',', '--policy', 'simple'],
+            'js-cli': ['node', os.path.join(env.REPO, 'rbql-js', 'cli_rbql.js'), '--query', query, '--input', inp, '--delim', ',', '--policy', 'simple']}
+    for front, cmd in cmds.items():
+        if front == 'js-cli' and not env.node_path():
+            continue
+        e = dict(os.environ, HOME=d, PYTHONPATH=env.PY_PKG_DIR, PYTHONDONTWRITEBYTECODE='1')
+        p = subprocess.Popen(cmd, env=e, cwd=d, stdout=subprocess.PIPE, stderr=subprocess.PIPE)
+        time.sleep(1.5)                                  # the producer fills the pipe and has to wait
+        chunks = []
+        t0 = time.time()
+        while True:
+            c = p.stdout.read(65536)
+            if not c:
+                break
+            chunks.append(c)
+            if len(chunks) % 8 == 0:
+                time.sleep(0.01)
+            if time.time() - t0 > 300:
+                p.kill()
+                break
+        err = p.stderr.read()
+        rc = p.wait(timeout=60)
+        got = b''.join(chunks)
+        res.evaluations += 1
+        res.count('slow_pipe_reader_runs:' + front)
+        res.nontrivial('slow-reader', front, nrec)
+        if rc != 0 or got != exp or err.strip():
+            res.violation('%s:large-stdout-through-slow-pipe' % front.replace('-cli', ':cli'), '[%s] %s over %d records into a pipe read late and slowly: exit %s, %d bytes / %d lines on stdout (expected %d / %d), identical prefix: %s, stderr %r' % (
+                front, query, nrec, rc, len(got), got.count(b'\n'), len(exp), nrec, exp.startswith(got), err[-200:]), {'leg': 'slow-reader', 'front_end': front, 'records': nrec})
+
+
 def run_shard(spec, res):
     ns = env.import_rbql()
     rng = random.Random(spec['seed'] * 982451653 + spec['i'])
@@ -350,6 +396,8 @@ def run_shard(spec, res):
             return failing_leg(ns, res, spec, d, rng)
         if spec['kind'] == 'options':
             return options_leg(ns, res, spec, d, rng)
+        if spec['kind'] == 'slow-reader':
+            return slow_reader_leg(ns, res, spec, d, rng)
         if spec['kind'] == 'bounded':
             return bounded_leg(ns, res, spec, d, rng)
         import pandas as pd
@@ -967,6 +1015,7 @@ def plan(tier, seed):
     specs = [{'kind': 'cases', 'k': k, 'i': i, 'n': max(1, CASES[tier] // k)} for i in range(k)]
     specs += [{'kind': 'bounded', 'k': 1, 'i': 2000 + i, 'n': 3 if tier == 'quick' else 30} for i in range(2)]
     specs.append({'kind': 'failing', 'k': 1, 'i': 0})
+    specs.append({'kind': 'slow-reader', 'k': 1, 'i': 3000})
     ko = {'quick': 4, 'thorough': 8}[tier]
     specs += [{'kind': 'options', 'k': ko, 'i': i + 1000, 'n': {'quick': 40, 'thorough': 300}[tier]} for i in range(ko)]
     return specs
@@ -976,7 +1025,7 @@ def summarize(tier, seed, m):
     fe = {k[10:]: v for k, v in m['counters'].items() if k.startswith('front_end:')}
     return {
         'rule': 'rectangular string tables (0-5 rows, 1-4 columns, cells with spaces, quotes, commas, non-ASCII, empty; one case in six with line breaks inside cells, run through the quoted_rfc dialect; duplicated column names in 15% of the headed cases; one case in five (quoted policies) written the way a spreadsheet exports it - a UTF-8 byte order mark and every field quoted; one case in eleven with records shorter or longer than the first, run through the front-ends that can hold such a table; no tabs) with and without header; type-agnostic structured queries (select / where / order / distinct / distinct count / top / inner join / update / except / aggregates) rotating systematically over clause combinations; a case whose reference run fails (runtime errors, and a column referred to as a.NAME where the header says name - one headed case in thirteen) must fail through every entry point as well; each executed through query_table (reference) and through 8 entry points: rbql.query with user-written iterator / writer / registry classes, query_csv, CLI file -> file and stdin -> stdout in the three output formats, query_pandas_dataframe, query_sqlite_to_csv, CLI sqlite (with --input, and without it when the database holds one table); every second language-neutral case also through the entry points of the JS package - query_table over arrays as its reference, query_csv (stream and bulk reading) and the node command line (file -> file, file -> stdout) over the same files: same table and header, exit 0, nothing but the table on stdout; plus a bounded-shapes leg: 20 queries (three of them on the record numbers NR / bNR of the two tables) combining TOP / LIMIT with DISTINCT, DISTINCT COUNT, aggregates, ORDER BY, WHERE, JOIN and UNNEST over tables of 5-14 records (duplicates up front) through sqlite (library and command line), pandas and query_csv against query_table; plus failing queries (parsing, execution, IO, syntax) x {file, stdout, sqlite} for exit status / Error [type] on stderr, and warning routing; plus an options leg over the parameters of the CSV entry points, each compared with query_table over the same data: comment lines (8 prefixes, before the header, between records, at the end, in the join file too) with comment_prefix / --comment-prefix, user variables and functions from an init source (user_init_code, --init-source-file, ~/.rbql_init_source.py under a private HOME; CLI sqlite too), latin-1 files with cells over the whole 0x80-0xff range and --encoding latin-1, a caller flag that says the opposite of what the files are, put right by WITH (header) / WITH (noheader) in the query, and the policy the command line picks when --policy is left out (quoted for , and ; / whitespace for a space / simple otherwise) with a cell whose CSV form depends on the policy. distinct_nontrivial = distinct (query, tables) with a non-empty result + failing scenarios.',
-        'required': ['cases', 'bounded_front_end:sqlite', 'bounded_front_end:cli-sqlite', 'bounded_front_end:pandas', 'bounded_front_end:query_csv', 'bom_quote_all_cases', 'multiline_cases', 'ragged_cases', 'failing_reference_cases', 'miscased_column_reference_cases', 'failing_reference_front_end:sqlite', 'failing_reference_front_end:pandas', 'failing_reference_front_end:query_csv', 'front_end:query+user-classes', 'front_end:query_csv', 'front_end:pandas', 'front_end:sqlite', 'front_end:cli-sqlite', 'cli_sqlite_default_table_runs', 'js_entry_point_cases', 'front_end:js-query_csv-stream', 'front_end:js-query_csv-bulk', 'front_end:js-cli-file', 'front_end:js-cli-stdout', 'front_end:cli-file-tsv', 'front_end:cli-file-csv', 'front_end:cli-file-input', 'front_end:cli-stdin-stdout-csv', 'cli_failing_runs', 'cli_usage_error_runs', 'cli_failing_runs_empty_message', 'cli_warning_runs', 'option_cases:comment', 'option_cases:init', 'option_cases:latin1', 'option_cases:defpolicy', 'option_cases:withmod', 'front_end:cli-file+comment', 'front_end:cli-stdin+init', 'front_end:cli-sqlite+init', 'front_end:query_csv+latin1', 'front_end:cli-file+defpolicy'],
+        'required': ['slow_pipe_reader_runs:py-cli', 'slow_pipe_reader_runs:js-cli', 'cases', 'bounded_front_end:sqlite', 'bounded_front_end:cli-sqlite', 'bounded_front_end:pandas', 'bounded_front_end:query_csv', 'bom_quote_all_cases', 'multiline_cases', 'ragged_cases', 'failing_reference_cases', 'miscased_column_reference_cases', 'failing_reference_front_end:sqlite', 'failing_reference_front_end:pandas', 'failing_reference_front_end:query_csv', 'front_end:query+user-classes', 'front_end:query_csv', 'front_end:pandas', 'front_end:sqlite', 'front_end:cli-sqlite', 'cli_sqlite_default_table_runs', 'js_entry_point_cases', 'front_end:js-query_csv-stream', 'front_end:js-query_csv-bulk', 'front_end:js-cli-file', 'front_end:js-cli-stdout', 'front_end:cli-file-tsv', 'front_end:cli-file-csv', 'front_end:cli-file-input', 'front_end:cli-stdin-stdout-csv', 'cli_failing_runs', 'cli_usage_error_runs', 'cli_failing_runs_empty_message', 'cli_warning_runs', 'option_cases:comment', 'option_cases:init', 'option_cases:latin1', 'option_cases:defpolicy', 'option_cases:withmod', 'front_end:cli-file+comment', 'front_end:cli-stdin+init', 'front_end:cli-sqlite+init', 'front_end:query_csv+latin1', 'front_end:cli-file+defpolicy'],
         'extra': {'front_end_comparisons': fe},
         'assumptions': ['query_table is the reference (pinned by C01-C05, C07)', 'types are not compared across back ends (CSV and pandas stringify): cells are compared after the stringification every CSV sink applies', 'scratch files are named in.csv / jn.csv / in_<n>.csv / jn_<n>.csv in a directory c<n> per case: a path containing an a./b. token under a header is the C08 known finding, not a front-end difference'],
     }
